@@ -1,29 +1,17 @@
-(* Property theorems: every blocking point of the v1 library goroutines has a stop alternative, checked on facts translated from the current Go sources (BlockFacts.v, regenerated on every run). *)
+(* Property theorems: every blocking point of the v1 library goroutines has a stop alternative, checked on facts translated from the current Go sources (BlockFacts.v, regenerated on every run); no unexported function name is mentioned: goroutine entries are derived from the constructors. *)
 From Coq Require Import List String Bool. From Cqos Require Import BlockTypes BlockFacts StopAlts. Import ListNotations. Open Scope string_scope.
 Theorem C16_v1_priority_stoppable :
-  exists p : package,
-           find_pkg facts "priority" = Some p /\
-           entry_stoppable p "Discipline.main" prio_alts prio_exceptions /\
-           (forall (f : func) (o : op),
-            In f (pkg_funcs p) ->
-            In (fn_name f) (reachable p "Discipline.main") ->
-            In o (fn_ops f) -> stoppable prio_alts o \/ In (fn_name f, o) prio_exceptions).
+  exists (p : package) (e : string), find_pkg facts "priority" = Some p /\ priority_statement p e.
 Proof. exact @v1_priority_stoppable_prop. Qed.
 Print Assumptions C16_v1_priority_stoppable.
 
 Theorem C16_v1_join_stoppable :
-  exists p : package,
-           find_pkg facts "join" = Some p /\
-           entry_stoppable p "Discipline.main" join_alts join_exceptions /\
-           (forall (f : func) (o : op),
-            In f (pkg_funcs p) ->
-            In (fn_name f) (reachable p "Discipline.main") ->
-            In o (fn_ops f) -> stoppable join_alts o \/ In (fn_name f, o) join_exceptions).
+  exists (p : package) (e : string), find_pkg facts "join" = Some p /\ join_statement p e.
 Proof. exact @v1_join_stoppable_prop. Qed.
 Print Assumptions C16_v1_join_stoppable.
 
 Theorem C16_v1_simple_stoppable :
-  exists p : package, find_pkg facts "priority" = Some p /\ simple_statement p.
+  exists (p : package) (m : string), find_pkg facts "priority" = Some p /\ simple_statement p m.
 Proof. exact @v1_simple_stoppable_prop. Qed.
 Print Assumptions C16_v1_simple_stoppable.
 
@@ -32,4 +20,11 @@ Theorem C16_stoppable_check_sound :
          check_entry p entry alts exc = true -> entry_stoppable p entry alts exc.
 Proof. exact @check_entry_sound. Qed.
 Print Assumptions C16_stoppable_check_sound.
+
+Theorem C16_goroutine_closure_sound :
+  forall (p : package) (gs : list string) (a : string),
+         In a gs ->
+         forallb (reach_ok p) gs = true -> gos_within p gs = true -> forall g : string, spawns p a g -> In g gs.
+Proof. exact @gos_within_sound. Qed.
+Print Assumptions C16_goroutine_closure_sound.
 
